@@ -26,6 +26,9 @@ type vHook struct {
 	code int         // exit code
 }
 
+// vRuntimeBoom marks a hook that fails with a runtime error instead of an explicit panic.
+type vRuntimeBoom struct{}
+
 // event: how Run ended
 const (
 	evNil = iota
@@ -42,7 +45,16 @@ func H_flow() {
 		hooks[i].kind = vChoice("kind", 4)
 		switch hooks[i].kind {
 		case hkPanics:
-			switch vChoice("panicvalkind", 3) {
+			nk := 4
+			if d >= 2 {
+				nk = 3 // runtime errors only on the shallow trees (path count)
+			}
+			if d >= 3 {
+				nk = 1 // deep trees: symbolic integer panic values only
+			}
+			switch vChoice("panicvalkind", nk) {
+			case 3:
+				hooks[i].val = vRuntimeBoom{} // the hook hits a genuine runtime error (write to a nil map)
 			case 0:
 				hooks[i].val = vNondetValue("panicval")
 			case 1:
@@ -63,6 +75,10 @@ func H_flow() {
 			log = append(log, i)
 			switch hooks[i].kind {
 			case hkPanics:
+				if _, rt := hooks[i].val.(vRuntimeBoom); rt {
+					var nilMap map[int]int
+					nilMap[i] = 1
+				}
 				panic(hooks[i].val)
 			case hkExits:
 				Exit(hooks[i].code)
@@ -170,6 +186,10 @@ func H_flow() {
 	case evPanic:
 		vCover("panic")
 		vAssert(!exited && exits == 0 && rec != nil, "C05: the last raised value is a panic: it must reach Run's caller, no exit")
-		vAssert(rec == raised.val, "C05: the re-raised panic value is not the most recently raised one")
+		if _, rt := raised.val.(vRuntimeBoom); rt {
+			vAssert(vIsRuntimeError(rec), "C05: the re-raised panic value is not the most recently raised one (a runtime error)")
+		} else {
+			vAssert(rec == raised.val, "C05: the re-raised panic value is not the most recently raised one")
+		}
 	}
 }
